@@ -1,12 +1,12 @@
 ------------------------------- MODULE Gen_C18 -------------------------------
-(* (G) hosts for C18 derived by TLC from the domain lists: every domain as is, with leading labels,
+(* (G) hosts for C18 derived by TLC from the domain lists: every domain as is, with leading labels (ASCII, and IDN ones the driver spells in Unicode),
    with a foreign label glued to its first label, followed by a foreign registrable domain. *)
 EXTENDS C18
 CONSTANTS NShort     \* 0 = all shortener domains, n = RandomSubset
 Picked(site) == IF site = "facebook" THEN {<<"facebook", "com">>, <<"fb", "me">>, <<"facebook", "fr">>, <<"facebook", "co">>}
                 ELSE IF site \in {"shortened", "resolve"} /\ NShort # 0 THEN RandomSubset(NShort, DomainSet(site)) \cup {<<"doi", "org">>, <<"list-manage", "com">>, <<"bit", "ly">>}
                 ELSE DomainSet(site)
-Variants(d) == {d, <<"www">> \o d, <<"a", "b">> \o d, <<"l">> \o d, Glued(d), d \o Foreign, <<"x" \o d[1]>> \o SubSeq(d, 2, Len(d))}
+Variants(d) == {d, <<"www">> \o d, <<"xn--caf-dma">> \o d, <<"xn--b1amnebsh", "www">> \o d, <<"a", "b">> \o d, <<"l">> \o d, Glued(d), d \o Foreign, <<"x" \o d[1]>> \o SubSeq(d, 2, Len(d))}
 Plain == {<<"example", "com">>, <<"lemonde", "fr">>, <<"netflix", "com">>, <<"chat", "me">>, <<"l", "example", "com">>, <<"myfacebook", "com">>, <<"t", "me", "evil", "fr">>}
 Gen(d) == [hosts |-> SetToSeq(UNION {UNION {Variants(x) : x \in Picked(s)} : s \in Sites} \cup Plain)]
 GenInit == host = <<>> /\ site0 = "" /\ JsonSerialize(IOEnv.GEN_OUT, Gen(0))
